@@ -42,6 +42,15 @@ KYD == LBond({"Y"}, "y1", {"D"}, "d1", "0.37", 1)
 KEA == LBond({"E"}, "e1", {"A"}, "c1", "0.38", 1)
 KPP == LBond({"ALA", "GLY"}, "BB", {"ALA", "GLY"}, "BB", "0.35", 1)
 
+\* branched / cross-linked polymers: side chain of one residue to the backbone of ANY bonded residue of the same name (`*` order, asymmetric)
+BlockS(ty) == Blk("S", 1, <<At("BB", ty, "S", 1), At("SC1", "C1", "S", 1)>>, <<In("bonds", <<1, 2>>, "0.41", 1)>>, {})
+KSB == LBond({"S"}, "BB", {"S"}, "BB", "0.42", 1)
+KSX == Lnk(<<0, 101>>, <<LA(1, "SC1", {"S"}), LA(2, "BB", {"S"})>>, <<In("bonds", <<1, 2>>, "0.43", 1)>>)
+\* two "libraries" that define the same block name: X (bond + angle over three residues) and Y (bond only)
+KXB == LBond({"S"}, "BB", {"S"}, "BB", "0.51", 1)
+KXA == Lnk(<<0, 1, 2>>, <<LA(1, "BB", {"S"}), LA(2, "BB", {"S"}), LA(3, "BB", {"S"})>>, <<In("angles", <<1, 2, 3>>, "0.52", 1)>>)
+KYB == LBond({"S"}, "BB", {"S"}, "BB", "0.53", 1)
+
 (* ---- modifications *)
 ModN == [name |-> "N-ter", atoms |-> <<[an |-> "BB", rep |-> TRUE, ty |-> "Qd"], [an |-> "SC1", rep |-> FALSE, ty |-> ""]>>,
          inters |-> <<[kind |-> "bonds", a |-> "BB", b |-> "SC1", par |-> "0.91"]>>]
@@ -66,7 +75,13 @@ FFcat == <<
        <<File("ff", <<D("b", 1), D("l", 1), D("l", 2)>>), File("itp", <<D("b", 2)>>), File("ff", <<D("b", 3)>>)>>),
   \* 6: citations and mixed exclusion distances (history inputs)
   MkFF(<<[BlockA(1) EXCEPT !.cite = {"ka"}], [BlockB(3) EXCEPT !.cite = {"kb"}]>>, <<K1>>, <<>>, {"ka", "kb"},
-       <<File("itp", <<D("b", 1)>>), File("itp", <<D("b", 2)>>), File("ff", <<D("l", 1)>>)>>)
+       <<File("itp", <<D("b", 1)>>), File("itp", <<D("b", 2)>>), File("ff", <<D("l", 1)>>)>>),
+  \* 7: `*`-order asymmetric link between residues of equal name (both orientations apply)
+  MkFF(<<BlockS("P1")>>, <<KSB, KSX>>, <<>>, {},
+       <<File("ff", <<D("b", 1), D("l", 1)>>), File("ff", <<D("l", 2)>>)>>),
+  \* 8: two libraries with the same block name; file 1 = library X, file 2 = library Y (history inputs use one of them through lib=[...])
+  MkFF(<<BlockS("P1"), BlockS("P2")>>, <<KXB, KXA, KYB>>, <<>>, {},
+       <<File("ff", <<D("b", 1), D("l", 1), D("l", 2)>>), File("ff", <<D("b", 2), D("l", 3)>>)>>)
 >>
 
 (* ---- residue graphs *)
@@ -106,12 +121,16 @@ CaseSeq == <<
   Case(25, 5, 1, <<"A", "B", "A", "A">>, NoFi(4), Star4, <<>>),
   Case(26, 6, 1, <<"A", "B", "B">>, NoFi(3), Chain(3), <<>>),
   Case(27, 6, 1, <<"B", "B">>, NoFi(2), Chain(2), <<>>),
-  Case(28, 1, 1, <<"A", "B", "B", "A">>, NoFi(4), Chain(4) \cup {{1, 3}, {2, 4}}, <<>>)
+  Case(28, 1, 1, <<"A", "B", "B", "A">>, NoFi(4), Chain(4) \cup {{1, 3}, {2, 4}}, <<>>),
+  Case(30, 7, 1, <<"S", "S", "S">>, NoFi(3), Chain(3), <<>>),
+  Case(31, 7, 1, <<"S", "S", "S", "S">>, NoFi(4), Star4, <<>>),
+  Case(32, 7, 2, <<"S", "S", "S", "S">>, NoFi(4), Ring4, <<>>),
+  Case(33, 8, 1, <<"S", "S", "S">>, NoFi(3), Chain(3), <<>>)
 >>
 AllCases == ToSet(CaseSeq)
 CasesById(S) == {c \in AllCases : c.id \in S}
 \* the quick instance of the confluence check (thorough: AllCases)
-CasesQuick == CasesById({1, 2, 5, 8, 9, 11, 12, 13, 14, 16, 17, 20, 22, 23, 24, 26, 27})
+CasesQuick == CasesById({1, 2, 5, 8, 9, 11, 12, 13, 14, 16, 17, 20, 22, 23, 24, 26, 27, 30, 31, 33})
 \* small sub-instances for the sensitivity runs
 CasesSlice == CasesById({13})
 CasesFrag == CasesById({16})
@@ -121,9 +140,10 @@ CasesLink == CasesById({3})
 CasesOrient == CasesById({1})
 CasesFiles == CasesById({24})
 CasesAdd == CasesById({8, 14})
+CasesStar == CasesById({31})
 
 NoDev == [sliceAny |-> FALSE, key0 |-> FALSE, addAny |-> FALSE, firstMatchOnly |-> FALSE, orientLink |-> FALSE,
-          dfsTreeFrag |-> FALSE, fragIdOrder |-> FALSE, itpGlobal |-> FALSE, cacheFF |-> FALSE, writerAppend |-> FALSE, flushLate |-> FALSE, canonMatch |-> FALSE, baseOnly |-> FALSE]
+          dfsTreeFrag |-> FALSE, fragIdOrder |-> FALSE, itpGlobal |-> FALSE, cacheFF |-> FALSE, writerAppend |-> FALSE, flushLate |-> FALSE, canonMatch |-> FALSE, baseOnly |-> FALSE, oncePerGroup |-> FALSE, inpathLeak |-> FALSE]
 DevSliceAny == [NoDev EXCEPT !.sliceAny = TRUE, !.baseOnly = TRUE]
 DevKey0 == [NoDev EXCEPT !.key0 = TRUE, !.baseOnly = TRUE]
 DevAddAny == [NoDev EXCEPT !.addAny = TRUE, !.baseOnly = TRUE]
@@ -132,6 +152,8 @@ DevOrientLink == [NoDev EXCEPT !.orientLink = TRUE, !.baseOnly = TRUE]
 DevDfsTreeFrag == [NoDev EXCEPT !.dfsTreeFrag = TRUE, !.baseOnly = TRUE]
 DevFragIdOrder == [NoDev EXCEPT !.fragIdOrder = TRUE, !.baseOnly = TRUE]
 DevItpGlobal == [NoDev EXCEPT !.itpGlobal = TRUE]
+DevOncePerGroup == [NoDev EXCEPT !.oncePerGroup = TRUE, !.baseOnly = TRUE]
+DevInpathLeak == [NoDev EXCEPT !.inpathLeak = TRUE]
 DevCacheFF == [NoDev EXCEPT !.cacheFF = TRUE]
 DevWriterAppend == [NoDev EXCEPT !.writerAppend = TRUE]
 DevFlushLate == [NoDev EXCEPT !.flushLate = TRUE]
